@@ -3,7 +3,7 @@ from . import routing_c18, classlaws
 
 
 def build(repo, tier, seed):
-    syn = routing_c18.obligations(repo)
+    syn = routing_c18.obligations(repo) + routing_c18.call_alias_obligations(repo)
     s2, und = routing_c18.trace_obligations(repo)
     import hashlib
     hashes = {"labrea/*.py": hashlib.sha256("".join(m.source for _, m in sorted(repo.modules.items())).encode()).hexdigest()[:16]}
